@@ -1,20 +1,20 @@
 SPECIFICATION Spec
 CONSTANTS
-  Pair = "LLTEM"
-  MaxDepth = 4
-  MaxCopies = 2
+  Pair = "DC"
+  MaxDepth = 3
+  MaxCopies = 1
   MaxEdits = 1
   MaxReopens = 1
-  EditOps = {"channels", "timing_mark"}
-  CopyModes = {"plain-same", "mask-same", "extent-same", "plain-other", "extent-other"}
-  MaskNames = {"lo", "mid"}
+  EditOps = {"channels"}
+  CopyModes = {}
+  MaskNames = {"lo"}
   Focus = TRUE
   BadValues = FALSE
   ValuesPerOp = 1
-  EditWhen = "copied"
+  EditWhen = "always"
   Extras = 0
   IdInGroup = FALSE
-  InGroup = FALSE
+  InGroup = TRUE
   Deviations = {}
 VIEW vw
 INVARIANT Mutual
